@@ -297,6 +297,20 @@ type chainHooks struct {
 
 // runChain runs one scenario; mismatches are reported through report(kind, what, detail). Returns false if it stopped early.
 func runChain(b *fw.B, sc scenario, hooks chainHooks, report func(m *sim.Mismatch, trace []string)) bool {
+	if sc.Family != "other-config-first" && b.Batch%2 == 0 {
+		// In the even batches a short chain under ANOTHER configuration (preset, fork versions, limits) runs first in the same
+		// process, through all forks: anything the library caches process-wide instead of per configuration would then
+		// be wrong for the chain that follows.
+		warm := scenario{Family: "other-config-first", Preset: "custom", Validators: 32, Epochs: 5, PBlock: 1, ForkEpochs: [4]uint64{1, 2, 3, 4},
+			Participation: []float64{1}, SyncPart: 1, AttBack: 1, POps: 0.2, PDeposits: 0.3, Eth1Creds: 0.5}
+		if sc.Preset == "custom" {
+			warm.Preset = "minimal"
+		}
+		b.Inc("chains_preceded_by_a_chain_under_another_configuration")
+		if !runChain(b, warm, chainHooks{}, report) {
+			return false
+		}
+	}
 	spec := specFor(sc)
 	ctx := context.Background()
 	rng := b.Rng
